@@ -11,7 +11,7 @@ rsync -a --exclude .git --exclude '__pycache__' /repo/ "$D/"
 TESTS=$(cd "$D" && /venv/bin/python -m pytest -q -p no:cacheprovider --timeout=900 2>&1 | tail -1)
 ( cd "$D" && timeout 300 /venv/bin/python "$SRC/demo.py" >/tmp/seedeval.demo.with 2>&1 ); DW=$?
 ( cd /repo && timeout 300 /venv/bin/python "$SRC/demo.py" >/tmp/seedeval.demo.without 2>&1 ); DWO=$?
-CHK=$(VERIF_REPO="$D" /verif/vt check "$PROP" --tier "$TIER" 2>&1 | grep -v "^KNOWN-FINDING"); 
+CHK=$(VERIF_EVIDENCE_DIR="$D/.evidence" VERIF_REPO="$D" /verif/vt check "$PROP" --tier "$TIER" 2>&1 | grep -v "^KNOWN-FINDING"); 
 RC=$(echo "$CHK" | grep -c "^VIOLATION")
 rm -rf "$D"
 echo "tests: $TESTS"; echo "demo with=$DW without=$DWO"; echo "$CHK" | grep -E "violation:|INFRA|partitions" | head -6
